@@ -510,4 +510,30 @@ mod kani_c18 {
         assert!(matches!(&s.state, ClientState::Discovering(d) if d.retry_at == Instant::from_micros(0)), "C18.reset: discovering, due at once");
         assert!(s.config_changed == (cc || k == K::R), "C18.reset: losing the lease is announced");
     }
+
+    // ------------------------------------------------------------------------------------------ C13 (DHCP part)
+    #[kani::proof] #[kani::stub(crate::rand::Rand::rand_u32, rand_any)] #[kani::unwind(34)]
+    fn c13_dhcp_poll_at() {
+        let mut s = any_socket(None);
+        let now = any_instant();
+        kani::assume(inv(&s, now) && in_range(&s)); // tag: invariant
+        let mut cx = Context::kani_ctx_eth(now, 1500, kani::any(), MAC);
+        let p = s.poll_at(&mut cx);
+        let later = match p { PollAt::Now => false, PollAt::Time(t) => t > now, PollAt::Ingress => true };
+        let k0 = kind(&s);
+        let mut emitted = false;
+        let r: Result<(), ()> = s.dispatch(&mut cx, |_, _| { emitted = true; Ok(()) });
+        let _ = r;
+        let changed = kind(&s) != k0;
+        kani::cover!(later, "a later deadline is possible");
+        kani::cover!(!emitted && !changed, "a silent dispatch is possible");
+        if later { assert!(!emitted && !changed, "C13.dhcp.sufficient: no message and no lease expiry is due before poll_at"); }
+        if !emitted && !changed {
+            match s.poll_at(&mut cx) {
+                PollAt::Now => assert!(false, "C13.dhcp.nonspinning: poll_at = Now after a silent dispatch"),
+                PollAt::Time(t) => assert!(t > now, "C13.dhcp.nonspinning: deadline not in the future after a silent dispatch"),
+                PollAt::Ingress => {}
+            }
+        }
+    }
 }
